@@ -180,6 +180,7 @@ def _agnostic(ck, fx, cg):
                     bad.append((hb["path"], v, loc(node)))
     ck.ob("R5.agnostic", "no compiler-private names in the VM", not bad, bad[0][2] if bad else "", "%d string literals examined; private spellings: %s" % (n, bad or "none"))
     ck.floor("R5.agnostic", "string literals examined", n, 1)
+    _execute_wiring(ck, fx)
 
 
 def _call_object_method(ck, fx):
@@ -208,3 +209,39 @@ def _call_object_method(ck, fx):
             R.need(ip[0]["val"] == ("some", V.fld(("app", "proj", (("var", "method"), lit("Method"), lit("code"))), "start")), "ip is not set to the method's start address")
         R.need(any("ne(len(argument_pointers)" in fmt_term(c) and not val for c, val in V.assumes(p["eff"])), "R5.arity: argument count is not compared with the method's parameter count")
         ck.ob("R5.op", name + ("|path%d" % i if i else ""), not R.problems, evs[0]["at"] if evs else "", "conforms to the S1 row (user method call)" if not R.problems else "; ".join(R.problems))
+
+
+def _execute_wiring(ck, fx):
+    """`fml execute FILE`: the program that is evaluated is the one deserialised from the selected input, evaluated once,
+    by the same entry `run` uses."""
+    from ..facts import walk, peel
+    from ..census import local_of
+    b = fx.body(A.get("cli.interpret"))
+    if not ck.anchor("R5.wiring", "BytecodeInterpreterAction::interpret", b):
+        return
+    ck.fn(b["path"])
+    lets = {}
+    for n, ps in walk_body(b):
+        if n.get("k") == "Block":
+            for st in n["block"]["stmts"]:
+                if st["k"] == "Let" and st["pat"].get("k") == "Binding" and "init" in st:
+                    lets[st["pat"]["lid"]] = st["init"]
+
+    def calls_in(e):
+        return [(callee_name(x) or x.get("name"), x) for x, _ in walk(e) if x.get("k") in ("Call", "MethodCall")]
+    ev = [n for n, ps in walk_body(b) if n.get("k") == "Call" and callee_name(n) == A.get("evaluate_mem")]
+    ok_ev = len(ev) == 1
+    prog = local_of(ev[0]["args"][0]) if ok_ev else None
+    ok_prog = ok_src = False
+    if prog and prog[0] in lets:
+        des = [x for c, x in calls_in(lets[prog[0]]) if c == A.get("cli.bc.deserialize")]
+        if len(des) == 1:
+            ok_prog = True
+            arg = peel(des[0]["args"][-1])
+            while arg.get("k") in ("AddrOf", "Unary"):
+                arg = peel(arg["e"])
+            src = local_of(arg)
+            if src and src[0] in lets:
+                ok_src = any((c or "").endswith("::selected_input") for c, _ in calls_in(lets[src[0]]))
+    ck.ob("R5.wiring", "execute: selected input → deserialize → evaluate", ok_ev and ok_prog and ok_src, loc(b),
+          "evaluated exactly once by the shared entry: %s; the evaluated program is the deserialised one: %s; it is read from the selected input: %s" % (ok_ev, ok_prog, ok_src))
